@@ -23,8 +23,12 @@ is a failure point, and the state after each effect is a possible crash state). 
 model forces it too (FileNotFoundError for a missing source of replace/unlink/stat/chmod/open-for-read).  Options in the
 contract's `fs_opts`:
     interrupt=True     additionally a KeyboardInterrupt may be delivered before and after every primitive
-    short_write=True   raw write() may write only a prefix of the buffer and return the short count
-                       (default False = assumption A-FULLWRITE: a raw write either raises or writes everything)
+    short_write=True   a *raw* write() (handle opened with buffering=0) may write only a prefix of the buffer and
+                       return the short count (default False = assumption A-FULLWRITE: a raw write either raises or
+                       writes everything).  *Buffered* handles (open(p, 'wb') with default buffering) are never short:
+                       BufferedWriter.write/flush/close retry partial raw writes until every byte handed over so far is
+                       in the file, or raise; between those calls the file holds an arbitrary (monotone) prefix of the
+                       bytes handed over -- each such state is checked as a crash state.
     close_fails=False  close() never raises (default True: close may raise; the descriptor is released anyway)
 `os.replace` is atomic and all-or-nothing; open(..., 'wb') atomically creates/truncates; unlink atomically removes;
 a raw write that is killed half way leaves an arbitrary prefix appended (checked as an extra crash state).
@@ -186,6 +190,7 @@ def os_error(I, cls="OSError", errno=None):
 def _interrupt(I, op, when):
     if _opts(I).get("interrupt"):
         if I.path.choice():
+            _set_add(I, "fs_called", z3.StringVal("KeyboardInterrupt"))     # ghost marker: an interrupt was delivered
             raise PyRaise(VExc("KeyboardInterrupt", []))
 
 
@@ -314,6 +319,7 @@ def fs_ntf(I, args, kw):
     m = _ghost(I, "fs")
     I.path.assume(z3.Not(z3.Select(m.dom, key)))          # O_CREAT|O_EXCL: the name was free
     I.path.assume(fs_name(key) == n)
+    I.path.assume(fs_is_temp(fs_name(key), prefix.e))
     I.path.assume(fs_parent(key) == fs_norm(d.e))
     I.path.assume(fs_norm(key) == key)
 
@@ -350,6 +356,9 @@ def fs_open(I, args, kw):
         f.attrs = {}
         f.raw = (buffering == 0 and mode == "wb")
         f.ntf = False
+        f.total = z3.StringVal("")          # buffered handles: all bytes handed to write() so far
+        f.flushed = z3.IntVal(0)            #                   how many of them have reached the file
+        f.clean = True
         _open_writers(I).append(f)
         _interrupt(I, "open", "after")
         return f
@@ -374,6 +383,8 @@ def file_method(I, f, name, args, kw):
         if f in ws:
             ws.remove(f)
         _called(I, "close")
+        if f.mode == "wb" and not getattr(f, "raw", False) and not getattr(f, "ntf", False) and not getattr(f, "clean", True):
+            _buffered_flush(I, f, "close")  # close() of a BufferedWriter flushes what is pending (or raises)
         if _opts(I).get("close_fails", True):
             def failed():
                 if getattr(f, "ntf", False):
@@ -388,12 +399,23 @@ def file_method(I, f, name, args, kw):
     if f.closed:
         I.raise_exc("ValueError", "I/O operation on closed file")
     if name == "write":
-        if f.mode != "wb" or not getattr(f, "raw", False):
-            raise Unsupported("write on a %s handle (only raw 'wb', buffering=0 is modelled)" % f.mode)
+        if f.mode != "wb" or getattr(f, "ntf", False):
+            raise Unsupported("write on a %s handle (only binary 'wb' handles are modelled)" % f.mode)
         data = args[0]
         if not isinstance(data, VStr):
             I.raise_exc("TypeError", "a bytes-like object is required")
         _called(I, "write")
+        if not getattr(f, "raw", False):
+            # BufferedWriter.write: takes the whole buffer; part of what is pending may be written through; an error of
+            # the underlying raw write surfaces as OSError (the bytes that did reach the file stay there)
+            _interrupt(I, "write", "before")
+            f.total = z3.simplify(z3.Concat(f.total, data.e))
+            f.clean = False
+            _buffered_progress(I, f, "write(buffered)")
+            if I.path.choice():
+                raise PyRaise(os_error(I))
+            _interrupt(I, "write", "after")
+            return VInt(z3.Length(data.e))
         may_fail(I, "write")
         m = _ghost(I, "fs")
         cur = z3.Select(m.val, f.path)
@@ -414,6 +436,11 @@ def file_method(I, f, name, args, kw):
         return VInt(n)
     if name == "flush":
         _called(I, "flush")
+        if f.mode == "wb" and not getattr(f, "raw", False) and not getattr(f, "ntf", False):
+            _interrupt(I, "flush", "before")
+            _buffered_flush(I, f, "flush")
+            _interrupt(I, "flush", "after")
+            return VNone()
         may_fail(I, "flush")
         return VNone()
     if name == "fileno":
@@ -421,6 +448,48 @@ def file_method(I, f, name, args, kw):
         I.path.assume(fd >= 0)
         return VInt(fd)
     raise Unsupported("file method %s" % name)
+
+
+def _buffered_progress(I, f, op):
+    """some more (possibly none, possibly all) of the bytes handed to a buffered handle reach the file"""
+    k = I.path.fresh("flushed", z3.IntSort())
+    I.path.assume(z3.And(f.flushed <= k, k <= z3.Length(f.total)))
+    f.flushed = k
+    effect(I, op, f.path, lambda: _put(I, f.path, z3.SubString(f.total, 0, k)))
+
+
+def _buffered_flush(I, f, op):
+    """BufferedWriter.flush(): loops over the raw write until everything pending is written, or raises OSError
+    (then an arbitrary further prefix has been written).  Never short."""
+    if I.path.choice():
+        _buffered_progress(I, f, op + "(failed)")
+        raise PyRaise(os_error(I))
+    f.flushed = z3.Length(f.total)
+    f.clean = True
+    total = f.total
+    effect(I, op, f.path, lambda: _put(I, f.path, total))
+
+
+def sp_fs_name_of(I, args, kw):
+    """spec function fs_name_of(key): the file-name component of the file with that key"""
+    return VStr(fs_name(args[0].e))
+
+
+def temp_name_pred(n, prefix):
+    """n = prefix + 8 characters of [a-z0-9_]  (the shape of a NamedTemporaryFile(prefix=prefix) name)"""
+    return z3.And(z3.PrefixOf(prefix, n), z3.Length(n) == z3.Length(prefix) + 8,
+                  z3.InRe(z3.SubString(n, z3.Length(prefix), 8), z3.Loop(TMP_CHARS, 8, 8)))
+
+
+fs_is_temp = z3.Function("fs_is_temp", _S, _S, z3.BoolSort())
+
+
+def sp_fs_temp_name(I, args, kw):
+    """spec function fs_temp_name(name, prefix).  Inside the contracts the predicate is kept *opaque* (uninterpreted
+    symbol fs_is_temp: no string reasoning under quantifiers); by definition fs_is_temp(n, p) :<=> temp_name_pred(n, p).
+    The only place that introduces it is the NamedTemporaryFile contract (justified by lemma goal
+    temp_name_invisible/ntf-name-has-temp-shape); its consequences are proved from temp_name_pred in that lemma."""
+    return VBool(fs_is_temp(args[0].e, args[1].e))
 
 
 def os_replace(I, args, kw):
